@@ -10,8 +10,13 @@ Open Scope Z_scope.
 (* ---------- static data ---------- *)
 Definition cid := nat.
 Record cmdinfo := { prio : Z; max_retries : nat; timeout : Z; wfr : bool;
-                    tx_hdr : nat; rx_hdr : option nat }.
-Record pkt := { p_hdr : nat; p_src : nat; p_dst_ok : bool }.
+                    tx_hdr : nat; rx_hdr : option nat;
+                    rx_null : option nat }.   (* an RQ|0418: the class of its reply header without the log index (0418|RP|<ctl>|) *)
+Record pkt := { p_hdr : nat; p_src : nat; p_dst_ok : bool;
+                p_null : option nat }.        (* a NULL fault-log entry (it always carries index 00): the class of its header without the index *)
+(* WantRply's special case: the reply to RQ|0418 for an empty slot is the addressed controller's null entry, whose header says 00, not nn *)
+Definition null_ok (ci : cmdinfo) (p : pkt) : bool :=
+  match rx_null ci, p_null p with Some a, Some b => Nat.eqb a b | _, _ => false end.
 Inductive exn := ERetries | ETransport | EFsm.
 Inductive fstat := FPending | FRes (p : pkt) | FExn (e : exn) | FCancelled.
 Inductive st := Inactive | Idle | WantEcho | WantRply.
@@ -352,7 +357,7 @@ Definition pkt_rcvd (w : world) (p : pkt) : R :=
           let ci := cmds k in
           if Nat.eqb (p_hdr p) (tx_hdr ci) && Nat.eqb (p_src p) (p_src e) then Ok w
           else match rx_hdr ci with
-               | Some h => if Nat.eqb (p_hdr p) h then set_state w Idle (HRes p) else Ok w
+               | Some h => if null_ok ci p || Nat.eqb (p_hdr p) h then set_state w Idle (HRes p) else Ok w
                | None => Crash 63 w
                end
       | _, _ => Crash 62 w
@@ -420,10 +425,10 @@ Definition do_write (w : world) (n : nat) (c : cid) : R :=
     let w := emit w (Write (now w) c) in
     let ci := cmds c in
     let w := match w_echo pl with
-             | Some d => call_at w (now w + d) (CbExt (Rx {| p_hdr := tx_hdr ci; p_src := 0%nat; p_dst_ok := false |}))
+             | Some d => call_at w (now w + d) (CbExt (Rx {| p_hdr := tx_hdr ci; p_src := 0%nat; p_dst_ok := false; p_null := None |}))
              | None => w end in
     let w := match w_rply pl, rx_hdr ci with
-             | Some d, Some h => call_at w (now w + d) (CbExt (Rx {| p_hdr := h; p_src := 1%nat; p_dst_ok := true |}))
+             | Some d, Some h => call_at w (now w + d) (CbExt (Rx {| p_hdr := h; p_src := 1%nat; p_dst_ok := true; p_null := None |}))
              | _, _ => w end in
     Ok w.
 
